@@ -15,6 +15,7 @@ import (
 	"strconv"
 	"strings"
 	"sync"
+	"sync/atomic"
 	"time"
 
 	"github.com/nuetzliches/hookaido/internal/app"
@@ -35,9 +36,15 @@ func (s outSpec) String() string {
 	return fmt.Sprintf("windows=%s order=%v sel=%s unload=%d", pattern(s.Windows), s.Order, s.Sel, s.Unload)
 }
 
-func listenBlock(worker int) string {
-	p := 20000 + worker*10
-	return fmt.Sprintf("ingress   { listen \"127.0.0.1:%d\" }\npull_api  { listen \"127.0.0.1:%d\"  auth token \"raw:g1\" }\nadmin_api { listen \"127.0.0.1:%d\" }\n", p, p+1, p+2)
+// bootSeq makes the (in-memory, placeholder) listen addresses of every boot of
+// this process unique, so that no boot can collide with a listener of an
+// earlier one that net/http closes asynchronously.
+var bootSeq atomic.Int64
+
+func listenBlock() string {
+	n := bootSeq.Add(1)
+	host := fmt.Sprintf("127.%d.%d.%d", (n>>16)&255, (n>>8)&255, n&255)
+	return fmt.Sprintf("ingress   { listen \"%s:18080\" }\npull_api  { listen \"%s:19443\"  auth token \"raw:g1\" }\nadmin_api { listen \"%s:12019\" }\n", host, host, host)
 }
 
 func envName(worker, version int) string { return fmt.Sprintf("C17_W%d_K%d", worker, version+1) }
@@ -71,7 +78,7 @@ const (
 
 func outDSL(s outSpec, worker int) string {
 	var b strings.Builder
-	b.WriteString(listenBlock(worker))
+	b.WriteString(listenBlock())
 	b.WriteString(secretsBlock(s.Windows, s.Unload, worker))
 	for _, rt := range outRoutes {
 		fmt.Fprintf(&b, "%s {\n  deliver_concurrency 1\n", rt.Route)
@@ -206,6 +213,11 @@ func bootOut(s outSpec, worker int, useNowSeam bool) (*outEnv, error) {
 		e.targets[rt.Route] = m
 	}
 	return e, nil
+}
+
+// bootRaw boots a configuration text as it is (no environment preparation).
+func bootRaw(dsl string, worker int) (*app.VerifApp, error) {
+	return app.VerifBoot(app.VerifBootOptions{Dir: fmt.Sprintf("%s/w%d", runner.Scratch(), worker), ConfigText: dsl, Store: queue.NewMemoryStore()})
 }
 
 func (e *outEnv) close() {
